@@ -49,6 +49,7 @@ FIND_GET = "C13-get-forward"
 FIND_POPHARD = "C13-pop-hardcoded"
 FIND_NOINIT = "C13-inherited-init-positional"
 FIND_CRASH = "C13-conditional-first-crash"
+FIND_NESTED = "C13-nested-pop-takes-callee-signature"
 
 NAMES = ["a", "b", "c", "d", "e", "f", "g", "h"]
 FRESH = "zz_fresh"
@@ -1007,22 +1008,48 @@ def callable_of(prog, tag):
     return None
 
 
-def origin_of(prog, mod, n, trace):
-    """who binds the probed argument `n` in this traced call: expected (atoms, default token) or None (swallowed)"""
+def executed_uses(c, tag, sel):
+    """the uses (nested reads expanded) that run when the if-chain of `tag` takes the branch chosen by `sel`"""
+    if not c["varkw"]:
+        return []
+    ids = sorted({g["g"]["branch"] for g in c["uses"] if isinstance(g["g"], dict) and "branch" in g["g"]})
+    chosen = sel.get(tag, 0)
+    taken = (chosen if chosen in ids[:-1] else ids[-1]) if ids else None
+    out = []
+    for g in c["uses"]:
+        gd = g["g"]
+        if gd == "a" or (isinstance(gd, dict) and (gd.get("const") is True or ("branch" in gd and gd["branch"] == taken))):
+            out.extend(expand_nested(g["u"]))
+    return out
+
+
+def origin_of(prog, mod, n, trace, sel=None):
+    """who binds the probed argument `n` in this traced call: expected (atoms, default token) or None (swallowed).
+    The binder is the first callable that receives `n` BY KEYWORD: a callable that pops `n` (as a statement or inside
+    the argument list of its forwarding call) consumes it — what the callee then holds under that name came through
+    an explicit argument, and the definition the user's value answers to is the pop."""
     holder = None
+
+    def read_in(tag, kinds):
+        for u in executed_uses(callable_of(prog, tag), tag, sel or {}):
+            for kind in kinds:
+                if kind in u and u[kind][0] == n:
+                    return {"by": tag + ":" + kind, "ty": [], "dflt": tok(u[kind][1]), "nested": bool(u.get("nested"))}
+        return None
+
     for tag, _kw, bound, kwsent in trace:
-        if n in bound:
-            p = inspect.signature(func_of(prog, mod, tag)).parameters[n]
-            return {"by": tag, "ty": atoms_of(p.annotation), "dflt": dflt_tok(p.default)}
         if n in kwsent:
             holder = tag
-    if holder is None:
+            continue
+        if n in bound:
+            popped = read_in(holder, ("pop",)) if holder is not None and callable_of(prog, holder) is not None else None
+            if popped is not None:
+                return popped
+            p = inspect.signature(func_of(prog, mod, tag)).parameters[n]
+            return {"by": tag, "ty": atoms_of(p.annotation), "dflt": dflt_tok(p.default)}
+    if holder is None or callable_of(prog, holder) is None:
         return None
-    for u in live_uses(callable_of(prog, holder)):
-        for kind in ("pop", "get"):
-            if kind in u and u[kind][0] == n:
-                return {"by": holder + ":" + kind, "ty": [], "dflt": tok(u[kind][1])}
-    return None
+    return read_in(holder, ("pop", "get"))
 
 
 # ---------------------------------------------------------------- the property on the real code
@@ -1099,11 +1126,13 @@ def judge(prog, mod, mros, q, names=None):
         origins = []
         for o in obs["sels"]:
             if o is not None and n in o["trace"]:
-                og = origin_of(prog, mod, n, o["trace"][n])
+                og = origin_of(prog, mod, n, o["trace"][n], o["sel"])
                 if og is not None:
                     origins.append(og)
         if origins and not any(og["ty"] == p["ty"] and og["dflt"] == p["dflt"] for og in origins):
             f = FIND_GET if sig_get_forward(prog, mros, q, n) else (FIND_CRASH if crashed else None)
+            if f is None and all(og.get("nested") for og in origins):
+                f = FIND_NESTED  # bound by a pop nested in an argument list, offered with the callee's signature of the same name
             devs.append({"kind": "type-default-differs", "name": n, "finding": f,
                          "detail": "offered %s/%s, bound at run time by %s with %s/%s" % (p["ty"], p["dflt"], origins[0]["by"], origins[0]["ty"], origins[0]["dflt"])})
     return devs, stats, real
@@ -1497,7 +1526,9 @@ def process(ctx, progs, T, parser_every, is_corpus=False):
                                   {"kind": "oracle", "origin": origin, "prog": prog, "q": q, "source": render(prog), "inside_theorem_hypotheses": True,
                                    "deviation": {"kind": "strict-signature", "real": real}})
             for d in devs:
-                if d["finding"] and ctx.is_open(d["finding"]) and not in_theorem:
+                # (what C13_exact / C13_hardcoded_not_offered decide; which of several agreeing definitions is shown is not a theorem)
+                covered = in_theorem and d["kind"] != "type-default-differs"
+                if d["finding"] and ctx.is_open(d["finding"]) and not covered:
                     ctx.known(d["finding"], "%s: %s (e.g. %s of a %s program)" % (d["kind"], d["detail"], "/".join(map(str, q)), origin))
                     continue
 
@@ -1509,14 +1540,14 @@ def process(ctx, progs, T, parser_every, is_corpus=False):
                     finally:
                         unload(m2)
                 small = prog
-                if not in_theorem and len(ctx.violations) < 5:
+                if not covered and len(ctx.violations) < 5:
                     try:
                         small = shrink_prog(prog, q, still_o)
                     except Exception:  # noqa: BLE001
                         small = prog
-                ctx.violation("C13 fails on the real resolver%s: %s — %s" % (" for a program inside the hypotheses of C13_exact" if in_theorem else "", d["kind"], d["detail"]),
+                ctx.violation("C13 fails on the real resolver%s: %s — %s" % (" for a program inside the hypotheses of C13_exact" if covered else "", d["kind"], d["detail"]),
                               {"kind": "oracle", "origin": origin, "prog": small, "q": q, "deviation": d,
-                               "source": render(small), "inside_theorem_hypotheses": in_theorem})
+                               "source": render(small), "inside_theorem_hypotheses": covered})
             # ---- parser surface (a share of the queries)
             if is_corpus or (idx + qi) % parser_every == 0:
                 T.n_parser += 1
